@@ -21,6 +21,8 @@ import (
 
 func init() {
 	commands["once"] = func(a []string) int { return nativeMain("once", a) }
+	commands["avfirst"] = func(a []string) int { return nativeMain("avfirst", a) }
+	commands["poolpc"] = func(a []string) int { return nativeMain("poolpc", a) }
 	commands["kmstress"] = func(a []string) int { return nativeMain("kmstress", a) }
 	commands["avstress"] = func(a []string) int { return nativeMain("avstress", a) }
 	commands["poolstress"] = func(a []string) int { return nativeMain("poolstress", a) }
@@ -79,6 +81,12 @@ func nativeMain(kind string, args []string) int {
 			header, comment, lines = avScenario(r)
 		case "pool":
 			header, comment, lines = poolScenario(r)
+		case "avfirst":
+			runtime.GOMAXPROCS(8)
+			header, comment, lines = avFirst(r)
+		case "poolpc":
+			runtime.GOMAXPROCS(8)
+			header, comment, lines = poolProdCons(r)
 		case "kmstress":
 			runtime.GOMAXPROCS(8)
 			header, comment, lines = kmStress(r)
@@ -471,6 +479,124 @@ func avStress(r *rand.Rand) (string, string, []string) {
 		}
 	}
 	return "av", fmt.Sprintf("avstress workers=%d ops=%d", nw, nops), fl.lines()
+}
+
+// avFirst: the FIRST operations on a fresh (never stored) AtomicValue, issued at the same instant by 2-3 goroutines behind a spin barrier
+func avFirst(r *rand.Rand) (string, string, []string) {
+	nw := 2 + r.Intn(2)
+	var av sync2.AtomicValue[int]
+	fl := newFastLog(nw)
+	kinds := make([]int, nw)
+	for i := range kinds {
+		kinds[i] = r.Intn(4)
+	}
+	type rec struct {
+		inv, res int64
+		text, out string
+	}
+	recs := make([]rec, nw)
+	var ready int32
+	var wg sync.WaitGroup
+	for t := 0; t < nw; t++ {
+		wg.Add(1)
+		go func(t int) {
+			defer wg.Done()
+			val := 10 + t
+			atomic.AddInt32(&ready, 1)
+			for atomic.LoadInt32(&ready) < int32(nw) {
+			}
+			rc := &recs[t]
+			switch kinds[t] {
+			case 0, 1:
+				rc.text = fmt.Sprintf("swap %d", val)
+				rc.inv = fl.stamp()
+				v := av.Swap(val)
+				rc.res = fl.stamp()
+				rc.out = itoa(v)
+			case 2:
+				rc.text = fmt.Sprintf("store %d", val)
+				rc.inv = fl.stamp()
+				av.Store(val)
+				rc.res = fl.stamp()
+				rc.out = "done"
+			default:
+				rc.text = "load"
+				rc.inv = fl.stamp()
+				v := av.Load()
+				rc.res = fl.stamp()
+				rc.out = itoa(v)
+			}
+		}(t)
+	}
+	wg.Wait()
+	// afterwards, sequentially: what is in the register now
+	for t, rc := range recs {
+		fl.per[t] = append(fl.per[t], fastEv{rc.inv, fmt.Sprintf("inv %d %s", t, rc.text)}, fastEv{rc.res, fmt.Sprintf("res %d %s", t, rc.out)})
+	}
+	i1 := fl.stamp()
+	v := av.Load()
+	i2 := fl.stamp()
+	fl.per[0] = append(fl.per[0], fastEv{i1, "inv 0 load"}, fastEv{i2, fmt.Sprintf("res 0 %d", v)})
+	return "av", fmt.Sprintf("avfirst workers=%d", nw), fl.lines()
+}
+
+// poolProdCons: producers Put fresh items (each exactly once), consumers Get and KEEP what they get: no item may come out twice
+func poolProdCons(r *rand.Rand) (string, string, []string) {
+	np, nc := 2, 2
+	nops := 150 + r.Intn(150)
+	p := &sync2.Pool[*poolItem]{}
+	fl := newFastLog(np + nc)
+	type rec struct {
+		inv, res int64
+		id       int
+	}
+	recs := make([][]rec, np+nc)
+	var wg sync.WaitGroup
+	start := make(chan struct{})
+	for t := 0; t < np; t++ {
+		wg.Add(1)
+		go func(t int) {
+			defer wg.Done()
+			<-start
+			for j := 0; j < nops; j++ {
+				it := &poolItem{id: 1 + t*nops + j} // script-made ids 1..999
+				rc := rec{id: it.id}
+				rc.inv = fl.stamp()
+				p.Put(it)
+				rc.res = fl.stamp()
+				recs[t] = append(recs[t], rc)
+			}
+		}(t)
+	}
+	for t := np; t < np+nc; t++ {
+		wg.Add(1)
+		go func(t int) {
+			defer wg.Done()
+			<-start
+			for j := 0; j < nops; j++ {
+				var rc rec
+				rc.inv = fl.stamp()
+				it := p.Get()
+				rc.res = fl.stamp()
+				if it != nil {
+					rc.id = it.id
+				}
+				recs[t] = append(recs[t], rc)
+			}
+		}(t)
+	}
+	close(start)
+	wg.Wait()
+	for t := range recs {
+		for _, rc := range recs[t] {
+			if t < np {
+				fl.per[t] = append(fl.per[t], fastEv{rc.inv, fmt.Sprintf("inv %d put %d", t, rc.id)}, fastEv{rc.res, fmt.Sprintf("res %d done", t)})
+			} else {
+				fl.per[t] = append(fl.per[t], fastEv{rc.inv, fmt.Sprintf("inv %d get", t)}, fastEv{rc.res, fmt.Sprintf("res %d %d", t, rc.id)})
+			}
+		}
+	}
+	return "pool 0 trace", fmt.Sprintf("poolpc producers=%d consumers=%d ops=%d", np, nc, nops), fl.lines()
 }
 
 // poolStress: 3-4 goroutines loop Get / Put of the item just obtained on one Pool with New
